@@ -161,6 +161,18 @@ for f in sorted(glob.glob(os.path.join(VERIF, "tools", "manifest_c*.json"))):
 # appended to the text / note / technique of C13 and C14, whatever tools/manifest_c13.json / manifest_c14.json say
 # (C08: tools/translate_ackparse.py, the decoders of ack.rs / event.rs)
 SOURCE_TIE = {
+    "C18": dict(
+        text=" TIE TO THE SOURCE CODE: tools/translate_access.py re-translates on every run NodeElementBase::{is_readable, "
+             "is_writable, is_locked, is_implemented, is_available} (genapi/src/node_base.rs) and RegisterBase::{is_readable, "
+             "is_writable} (register_base.rs) into gen/AccessSrc.v - the conjunctions with Rust's order and short circuit, "
+             "the matches! mode sets, the map_or defaults - and checks that IntReg / MaskedIntReg / FloatReg / StringReg "
+             "delegate to them; C18_controls_from_source, C18_base_readable_from_source, C18_base_writable_from_source and "
+             "C18_register_access_from_source prove the translated functions equal to the model's ctlq / base_r / base_w / "
+             "register arms for every node and every behaviour of the nodes asked; C18_source_write_order states the "
+             "first-failing-control rule of the translated code alone.",
+        note=" Also trusted: tools/translate_access.py (regex shapes) and model/AccessOps.v; the per-kind is_readable / "
+             "is_writable of the non-register features (value sources, converters, swiss knives) are not translated.",
+        technique=" + code translator (access-restriction core of node_base.rs / register_base.rs)"),
     "C01": dict(
         text=" TIE TO THE SOURCE CODE: tools/translate_codec.py re-translates on every run, from genapi/src/utils.rs into "
              "gen/CodecSrc.v, int_from_slice and bytes_from_int (the local macro_rules! arms, the invocation list of (length, "
